@@ -730,6 +730,124 @@ def check_complexpower(ctx, model, n):
             ctx.disagree("estim.powerc.property", case0, bad, None, oracle=oracle)
 
 
+# --------------------------------------------------------------------------
+# default precision (no jax_enable_x64): float32 / complex64 operators in a worker subprocess
+
+
+def _f32_worker(items):
+    import subprocess
+    import sys
+
+    p = subprocess.run([sys.executable, str(common.VERIF / "harness" / "estim_f32_worker.py")],
+                       input=json.dumps({"repo": str(common.REPO), "items": items}), capture_output=True, text=True, timeout=900)
+    if p.returncode != 0:
+        raise common.Infra("estim_f32_worker failed: " + p.stderr[-800:])
+    return json.loads(p.stdout.strip().splitlines()[-1])["results"]
+
+
+_BITS64 = ("float64", "complex128")
+
+
+def _f32_property(item, rec, base_rec=None):
+    """the property clauses on one default-precision record (single-precision tolerances)"""
+    desc = item["desc"]
+    M = G.dense(desc)
+    smax = float(np.linalg.norm(M, 2)) if M.size else 0.0
+    if rec.get("construct_raised"):
+        return {"why": "default precision (no x64): building the operator raised", "error": rec["construct_raised"]}
+    prev = None
+    for e in rec["opnorm"]:
+        if e.get("raised"):
+            return {"why": "default precision: operator_norm raised on a float32/complex64 operator", "maxiter": e["k"], "error": e["raised"]}
+        if e["dtype"] in _BITS64 or e["dtype"].startswith("complex"):
+            return {"why": "default precision: operator_norm is not a real 32-bit value", "dtype": e["dtype"]}
+        est = e["v"]
+        if est is None or math.isnan(est):
+            return {"why": "default precision: estimate is not a number", "maxiter": e["k"]}
+        if est > smax * (1 + 1e-4) + 1e-30:
+            return {"why": "default precision: estimate exceeds the exact induced 2-norm", "maxiter": e["k"], "estimate": est, "exact": smax}
+        if smax == 0.0 and est != 0.0:
+            return {"why": "default precision: estimate of the zero operator is not exactly 0", "estimate": est}
+        if prev is not None and est < prev * (1 - 1e-4):
+            return {"why": "default precision: estimate decreased when the budget grew", "estimates": [prev, est]}
+        prev = est
+    if desc.get("flavour") == "gapped" and item["budgets"][-1] >= 60 and abs(prev - smax) > 1e-3 * smax:
+        return {"why": "default precision: estimate did not converge to the separated largest singular value", "estimate": prev, "exact": smax}
+    pw = rec["power"]
+    if pw.get("raised"):
+        return {"why": "default precision: power_iteration raised", "error": pw["raised"]}
+    if pw["dtype"] in _BITS64 or pw["v_dtype"] in _BITS64:
+        return {"why": "default precision: power_iteration returns 64-bit values", "dtypes": [pw["dtype"], pw["v_dtype"]]}
+    if smax > 0 and prev > 0 and abs(pw["v_norm"] - 1.0) > 1e-4:
+        return {"why": "default precision: returned vector is not a unit vector", "norm": pw["v_norm"]}
+    c = prev
+    if c > 0:
+        pd, pa = rec["pdhg"], rec["padmm"]
+        if pd.get("raised") or pa.get("raised"):
+            return {"why": "default precision: estimate_parameters raised", "error": pd.get("raised") or pa.get("raised")}
+        tau, sigma, mu, nu = pd["tau"]["v"], pd["sigma"]["v"], pa["mu"]["v"], pa["nu"]["v"]
+        if any(d in _BITS64 for d in (pd["tau"]["dtype"], pd["sigma"]["dtype"], pa["mu"]["dtype"], pa["nu"]["dtype"])):
+            return {"why": "default precision: estimate_parameters returns 64-bit values"}
+        if not tau * sigma * c * c < 1.0 or not _rel(tau * sigma * c * c, 1 / 1.01, 1, 1e-4) or not _rel(sigma, tau, 1, 1e-6):
+            return {"why": "default precision: PDHG defaults violate tau*sigma*c^2 = 1/1.01 < 1, sigma = tau", "tau": tau, "sigma": sigma, "c": c}
+        if not mu > c * c or not _rel(mu, 1.01 * c * c, 1, 1e-4) or not _rel(nu, 1.01, 1, 1e-4):
+            return {"why": "default precision: ProximalADMM defaults violate mu = 1.01 c_A^2 > c_A^2, nu = 1.01", "mu": mu, "nu": nu, "c": c}
+    for o, e in rec.get("norms", {}).items():
+        if e.get("raised"):
+            return {"why": "default precision: norm raised for a valid order", "ord": o, "error": e["raised"]}
+        oo = None if o == "None" else (o if o in ("fro", "nuc") else float(o))
+        oo = int(oo) if isinstance(oo, float) and math.isfinite(oo) else oo
+        want = float(np.linalg.norm(M, oo))
+        # (orders computed from singular values: tolerance relative to the largest one — a vanishing singular value is 1e-8·smax
+        #  at single precision and 1e-16·smax at double precision)
+        if e["dtype"] in _BITS64 or not (abs(e["v"] - want) <= 1e-5 * max(smax, abs(want))):
+            return {"why": "default precision: closed-form / matrix norm differs from numpy (float32 tolerance) or is 64-bit", "ord": o, "got": e["v"], "numpy": want, "dtype": e["dtype"]}
+    if base_rec is not None and not base_rec.get("construct_raised"):
+        f = 2.0 ** desc["scale_k"]
+        for e, b in zip(rec["opnorm"], base_rec["opnorm"]):
+            if b.get("v") and not _rel(e["v"], f * b["v"], 1, 1e-6):
+                return {"why": "default precision: operator_norm is not scale-equivariant within the float32 range", "k": desc["scale_k"], "scaled": e["v"], "base": b["v"]}
+    return None
+
+
+def oracle_f32(case):
+    items = [case["item"]] + ([case["base_item"]] if case.get("base_item") else [])
+    recs = _f32_worker(items)
+    return _f32_property(case["item"], recs[0], recs[1] if len(recs) > 1 else None)
+
+
+ORACLES["f32"] = oracle_f32
+
+
+def check_default_precision(ctx, n):
+    """the library's DEFAULT precision mode (worker subprocess without jax_enable_x64): operators built from float32 / complex64
+    arrays (Identity / ScaledIdentity with the dtype omitted), budgets 1, 3, 20, 60, keys None / 1, and the same operators
+    times 2^k, |k| <= 12 (inside the float32 range also for the squares of the Gram operator): every property clause at single-precision tolerance"""
+    rng = ctx.rng
+    kinds = ["diag-real", "diag-complex", "matrix-real", "matrix-complex", "rank-one", "zero", "scaled-identity", "identity", "gapped"]
+    items = []
+    for i in range(n):
+        d = G.gen_operator(rng, kinds[i % len(kinds)])
+        items.append({"desc": d, "key": [None, 1][i % 2], "budgets": [1, 3, 20, 60]})
+    pairs = []
+    for i in range(max(4, n // 3)):
+        b = G.gen_operator(rng, ["diag-real", "matrix-real", "matrix-complex", "scaled-identity"][i % 4])
+        sc = G.scaled(b, [-12, -6, 6, 12][i % 4])  # (c·2^-30)^4 underflows at float32 (XLA flushes denormals): outside
+        pairs.append((len(items), len(items) + 1))
+        items.append({"desc": b, "key": 1, "budgets": [1, 3, 20]})
+        items.append({"desc": sc, "key": 1, "budgets": [1, 3, 20]})
+    recs = _f32_worker(items)
+    base_of = {j: i for i, j in pairs}
+    for j, (it, rec) in enumerate(zip(items, recs)):
+        ctx.case({"what": "f32", "kind": it["desc"].get("flavour", it["desc"]["kind"]), "key": it["key"]}, "f32:" + json.dumps(it, sort_keys=True))
+        ctx.count("f32:" + it["desc"].get("flavour", it["desc"]["kind"]))
+        base = recs[base_of[j]] if j in base_of else None
+        bad = _f32_property(it, rec, base)
+        if bad is not None:
+            case = {"what": "f32", "item": it, **({"base_item": items[base_of[j]]} if j in base_of else {})}
+            ctx.violation({"kind": "failing-input", "case": case, "failing": bad}, True, "estim.f32: property fails on the implementation")
+
+
 def check_pdhg(ctx, model, case):
     import scico.numpy as snp
     from scico.optimize import PDHG
@@ -1137,6 +1255,10 @@ def run_case(ctx, model, case):
         r = oracle_power_vector(case)
         if r is not None:
             ctx.disagree("estim.power.vector", case, r, None, oracle=oracle)
+    elif w == "f32":
+        r = oracle_f32(case)
+        if r is not None:
+            ctx.violation({"kind": "failing-input", "case": case, "failing": r}, True, "estim.f32: property fails on the implementation")
     elif w == "complexpower":
         r = oracle_complexpower(case)
         if r is not None:
@@ -1183,6 +1305,7 @@ def correspond(ctx, model):
     check_nonfinite(ctx, model)
     check_nonsymmetric(ctx, model, ctx.n(16, 120))
     check_complexpower(ctx, model, ctx.n(16, 120))
+    check_default_precision(ctx, ctx.n(27, 150))
     for i in range(ctx.n(60, 250)):
         desc = G.gen_operator(rng)
         key = [None, 0, 1, 2, 3][int(rng.integers(0, 5))]
